@@ -6,7 +6,13 @@ the model invariants (inverse pair, admissible answer sets, orthonormal 0/+-1 ro
 regime x class x ellipsoid x sign-pattern x scale boxes of Reverse.
 M2: every vector is executed on the real Geocentric / LocalCartesian (each box is sampled by the driver inside the box).
 M3: Trace_Geocentric validates lattice observations against the integer model and the laws of the property on box samples
-and seeded random records, with the tolerances of the documentation (7 / 4 / 8 nm at WGS84 scale)."""
+and seeded random records, with the tolerances of the documentation (7 / 4 / 8 nm at WGS84 scale).
+Objects and overloads (strengthening pass): every M overload (Geocentric / LocalCartesian x Forward / Reverse) is called with
+vectors of length 0, 8, 9, 10, 18 in every record (only a 9-vector is written, the conversion never depends on M); the
+LocalCartesian object is a TLA+ state machine (five constructor forms, two Reset forms, copy, assignment): TLC enumerates every
+history, the driver replays it on one live object and logs bit-for-bit agreement with a fresh general-form object at the model
+state, inspectors and lattice queries (stateful trace validation); Geocentric::WGS84() and every default `earth` argument are
+bound to the documented constants; tools/CartConvert is run on TLC-enumerated lattice lines."""
 import collections
 import json
 
@@ -18,7 +24,11 @@ LEVEL_TEXT = ('Exact integer TLA+ model of Geocentric/LocalCartesian on a dyadic
               'model-checked by TLC; every lattice vector and every regime box (far, sphere, outside/inside evolute, cut locus x '
               'oblate/prolate x sign pattern x scale x 23 ellipsoids) is replayed on the real code and validated by TLC; the laws of the '
               'property (closed form, Forward o Reverse over 40+ decades, Reverse o Forward, ranges, least |h|, ENU matrix, rigid motion, '
-              'mutual inverses) are validated on seeded random records with the documented 7/4/8 nm bounds.')
+              'mutual inverses) are validated on seeded random records with the documented 7/4/8 nm bounds. LocalCartesian is also '
+              'modelled as an object (state = ellipsoid and origin; constructor forms, Reset forms, copy, assignment): TLC enumerates '
+              'every history of bounded length, each is replayed on a live object and validated statefully (bitwise equal to a fresh '
+              'object at the model state); the optional-matrix overloads are enumerated over vector lengths; the singleton WGS84() and '
+              'the default arguments are bound to the documented constants; CartConvert is driven on lattice lines.')
 DESIGN_REF = 'DESIGN.md section 4, C07'
 LEVEL_NOTE = ('Trusted: TLC, Geocentric.tla, the long-double textbook formulas of drv_geoc.cpp (closed form, ENU frame, surface metric, '
               'least distance to the meridian ellipse). Off the lattice the spec is relational (laws with documented tolerances); a change '
@@ -26,6 +36,98 @@ LEVEL_NOTE = ('Trusted: TLC, Geocentric.tla, the long-double textbook formulas o
               'there on the unchanged tree (finding in notes/C07.md), outside the ~40 decades the property quantifies over. The two '
               'ellipsoids with e > 1/sqrt(2) or b = 10 a (no documented accuracy) are held to 16 x the bound.')
 TECHNIQUE = 'TLA+ lattice model + TLC enumeration, spec-to-code replay, TLC trace validation'
+
+
+def object_stage(ctx, cfg_text):
+    """LocalCartesian as a stateful object: TLC enumerates every history (constructor form, then Reset forms / copies) of the
+    state graph of MC_Geocentric part "obj" and emits each with the model state after every operation and the lattice queries
+    on the final state; the driver replays them on one live object per history; seeded random histories (random origins and
+    ellipsoids) are appended; Trace_Geocentric validates statefully (variable obj), sharded at the "Reset" lines."""
+    exe = vlib.build_driver('drv_geoc', 'plain' if ctx.quick else 'san')
+    cfg = ctx.cfg('MC_Geocentric_obj', cfg_text)
+    hv = [v for v in ctx.generate('MC_Geocentric', cfg, workers=vlib.NCPU, timeout=3000) if v[0] == 'obj']
+    if len(hv) < 1000:
+        raise vlib.FrameworkError('too few object histories: %d' % len(hv))
+    rows = []
+    for v in hv:
+        rows.append('obj')
+        rows += [['o'] + list(r) for r in v[1]]
+    vin = ctx.path('histories.txt')
+    vlib.write_lines(vin, rows)
+    ctx.cov['behaviours_replayed'] += len(hv)
+    ctx.cov['distinct_nontrivial'] += len(hv)
+    trace = ctx.path('trace-obj.ndjson')
+    rc, err = ctx.drive(exe, ['replay'], infile=vin, outfile=trace)
+    if rc == 0:
+        rnd = ctx.path('trace-obj-rnd.ndjson')
+        rc, err = ctx.drive(exe, ['hist', ctx.seed, 3000 if ctx.quick else 60000], outfile=rnd)
+        with open(trace, 'ab') as f, open(rnd, 'rb') as g:
+            f.write(g.read())
+    if rc != 0:
+        ctx.violation('driver crashed replaying object histories (rc=%d): %s' % (rc, err[-600:]),
+                      [{'e': 'ReplayHeader', 'property': ctx.pid, 'law': 'no-crash', 'vectors': vin}])
+        return []
+    n, rej = ctx.validate('Trace_Geocentric', 'Trace_Geocentric', trace, shards=vlib.NCPU, group_key='Reset')
+    ctx.cov['traces_validated_against_impl'] += 1
+    ctx.report_rejects(rej, trace)
+    ctx.law('object-histories', len(hv))
+    return [trace]
+
+
+FAM_E = {0: ['-e', '4194304', '0'], 1: ['-e', '4194304', '1/128'], 2: ['-e', '4194304', '-1/128'], 3: []}   # 3: WGS84 by default
+
+
+def tool_stage(ctx, cfg_text):
+    """tools/CartConvert built from the tree under test, run on the lattice lines TLC enumerates (MC_Geocentric part "tool":
+    forward / reverse x geocentric / -l origin x -e lattice ellipsoid or the default WGS84 x -w x -p).  Only executes and logs
+    (exit status, output tokens as byte codes); Trace_Geocentric (ToolOK) decides."""
+    import subprocess
+    exe = vlib.build_tool('CartConvert')
+    cfg = ctx.cfg('MC_Geocentric_tool', cfg_text)
+    tv = [v for v in ctx.generate('MC_Geocentric', cfg, workers=4, timeout=3000) if v[0] == 't']
+    if len(tv) < 500:
+        raise vlib.FrameworkError('tool stage: too few vectors (%d)' % len(tv))
+    groups = collections.OrderedDict()
+    for v in tv:
+        mode, fi, w, prec, lat0, lon0, h0 = v[1:8]
+        groups.setdefault((mode, fi, w, prec, lat0, lon0, h0), []).append(v[8:11])
+    recs = []
+    for (mode, fi, w, prec, lat0, lon0, h0), pts in groups.items():
+        opts = list(FAM_E[fi]) + ['-p', str(prec)]
+        if w:
+            opts.append('-w')                      # must precede -l (man page)
+        if mode in ('lf', 'lr'):
+            opts += ['-l'] + [str(x) for x in ((lon0, lat0, h0) if w else (lat0, lon0, h0))]
+        if mode in ('gr', 'lr'):
+            opts.append('-r')
+        lines = []
+        for (a1, a2, a3) in pts:
+            if mode in ('gf', 'lf') and w:
+                lines.append('%d %d %d' % (a2, a1, a3))
+            else:
+                lines.append('%d %d %d' % (a1, a2, a3))
+        try:
+            p = subprocess.run(['timeout', '60', exe] + opts, input=''.join(l + '\n' for l in lines).encode(),
+                               stdout=subprocess.PIPE, stderr=subprocess.PIPE)
+        except OSError as e:
+            raise vlib.FrameworkError('cannot run %s: %s' % (exe, e))
+        if p.returncode == 124:
+            raise vlib.FrameworkError('tool timeout: %s %s' % (exe, opts))
+        out = p.stdout.decode('latin-1').split('\n')[:-1]
+        for i, (a1, a2, a3) in enumerate(pts):
+            has = len(out) == len(lines)
+            recs.append(dict(e='tool', mode=mode, fi=fi, w=w, prec=prec, o=[lat0, lon0, h0], a=[a1, a2, a3], opts=' '.join(opts),
+                             inp=lines[i], status=p.returncode, has=has,
+                             tok=[list(t.encode('latin-1')) for t in out[i].split()] if has else []))
+    tf = ctx.path('trace-tool.ndjson')
+    vlib.write_lines(tf, [json.dumps(r, separators=(',', ':')) for r in recs])
+    ctx.cov['behaviours_replayed'] += len(recs)
+    ctx.cov['distinct_nontrivial'] += len(recs)
+    n, rej = ctx.validate('Trace_Geocentric', 'Trace_Geocentric', tf, shards=4, group_key=None)
+    ctx.cov['traces_validated_against_impl'] += 1
+    ctx.report_rejects(rej, tf)
+    ctx.law('tool-runs', len(groups))
+    return [tf]
 
 
 def run(ctx):
@@ -40,14 +142,18 @@ def run(ctx):
                 rows.append(list(v))
         return rows
 
-    base = ('INIT Init\nNEXT Next\nCONSTANTS Part = "%s" NChunks = 32 Dense = %s\n'
-            'INVARIANTS FwdInv RevInv RotInv LocInv BoxInv Emit\nCHECK_DEADLOCK FALSE\n')
+    base = ('INIT Init\nNEXT Next\nCONSTANTS Part = "%s" NChunks = 32 Dense = %s Depth = %d\n'
+            'INVARIANTS FwdInv RevInv RotInv LocInv BoxInv MvInv ObjInv ToolInv Emit\nCHECK_DEADLOCK FALSE\n')
     dense = 'FALSE' if ctx.quick else 'TRUE'
-    parts = [(p, base % (p, dense)) for p in ('geo', 'loc', 'box')]
+    depth = 2 if ctx.quick else 3
+    parts = [(p, base % (p, dense, depth)) for p in ('geo', 'loc', 'box')]
     nrec = 120000 if ctx.quick else 2000000
     rows, traces = vlib.lattice_pipeline(ctx, 'MC_Geocentric', parts, to_rows, 'drv_geoc', ['replay'],
                                          ['record', ctx.seed, nrec], 'Trace_Geocentric',
                                          flavour_record=None if ctx.quick else 'san', min_vectors=1000)
+    if traces:
+        traces += object_stage(ctx, base % ('obj', 'FALSE', depth))
+        traces += tool_stage(ctx, base % ('tool', 'FALSE', depth))
     # evidence only: how many lines of each kind / regime / guard were seen (vacuity is visible)
     kinds = collections.Counter()
     for tf in traces:
@@ -58,6 +164,14 @@ def run(ctx):
                 except ValueError:
                     continue
                 kinds[r['e']] += 1
+                if r['e'] == 'lo':
+                    kinds['lo.op=' + r['op']] += 1
+                if r['e'] == 'mv':
+                    kinds['mv.%s.%d' % (r['ent'], r['n'])] += 1
+                if r['e'] == 'tool':
+                    kinds['tool.%s.fi%d' % (r['mode'], r['fi'])] += 1
+                if r['e'] == 'go':
+                    kinds['go.' + r['form']] += 1
                 if r['e'] == 'rv':
                     kinds['rv.reg=' + r['reg']] += 1
                     if -600 <= r['ex'] <= -440:
@@ -77,9 +191,15 @@ def run(ctx):
 RULE = ('vectors enumerated by TLC from MC_Geocentric: Forward at (lat in {0,+-90}) x (lon = 90 k) x heights around -a, -b, the singular '
         'radii, geophysical and 2^30 for f in {0, 1/128, -1/128}; Reverse at axis points of the same radii incl. the centre; LocalCartesian '
         'origins x lattice points and x local offsets; regime boxes (regime x 23 ellipsoids x 27 sign patterns x scales), each sampled '
-        'by the driver; plus seeded random records (fw, rt, rv, lc). distinct_nontrivial = distinct lattice vectors and boxes.')
+        'by the driver; plus seeded random records (fw, rt, rv, lc). M overloads: entry point x length in {0, 8, 9, 10, 18} x lattice '
+        'points, and the whole length family in every record. LocalCartesian object histories: 104 constructor forms (c4 x 4 ellipsoids '
+        'x 18 origins, c3, c2, c1, c0) followed by at most Depth - 1 of 29 steps (Reset(lat0, lon0, h0), Reset(lat0, lon0), copy, '
+        'assignment), every history with its lattice queries; seeded random histories. Geocentric objects: 5 forms x 23 ellipsoids. '
+        'CartConvert: mode x ellipsoid (-e / default) x -w x -p x origin x lattice line. distinct_nontrivial = distinct lattice '
+        'vectors, boxes, histories and tool lines.')
 TRUSTED = ['TLC', 'Geocentric.tla', 'drv_geoc.cpp (long-double closed form, ENU frame, surface metric and least-distance search used to '
-           'reduce each law to an integer residual)']
+           'reduce each law to an integer residual; bitwise comparison of a live object with a fresh one on a probe set)',
+           'props/C07.py (composition of the CartConvert command lines and input lines)']
 
 
 def replay(ctx, path):
